@@ -142,6 +142,20 @@ def theorems_in(relpath: str) -> list[str]:
     return re.findall(r"^\s*(?:Theorem|Corollary|Example)\s+([A-Za-z0-9_']+)", txt, re.M)
 
 
+def theorem_spans(relpath: str) -> dict[str, tuple[int, int]]:
+    """theorem name -> (first line, last line of its proof), 1-based."""
+    lines = (COQ / relpath).read_text().splitlines()
+    spans, cur, start = {}, None, 0
+    for i, ln in enumerate(lines, 1):
+        m = re.match(r"\s*(?:Theorem|Corollary|Example)\s+([A-Za-z0-9_']+)", ln)
+        if m:
+            cur, start = m.group(1), i
+        if cur and re.search(r"\b(Qed|Defined)\.", ln):
+            spans[cur] = (start, i)
+            cur = None
+    return spans
+
+
 def assumptions_of(relpath: str) -> dict[str, str]:
     """Re-compile a Props file on its own and capture its Print Assumptions output."""
     r = sh(f"timeout 600 coqc -Q . TE {relpath}", cwd=COQ, timeout=660)
